@@ -53,6 +53,14 @@ func (ex *Exec) loopEnv(fr *Frame, st *State, h *ssa.BasicBlock, phiVals map[*ss
 			env.vars[name] = v
 		}
 	}
+	// map iteration: number of entries visited so far
+	for v, val := range fr.vals {
+		if _, ok := v.(*ssa.Range); ok && val.Loc != nil && val.Loc.Kind == "cell" {
+			if cv, has := st.Cells[val.Loc.Cell]; has {
+				env.vars["$visited"] = cv
+			}
+		}
+	}
 	for p, v := range phiVals {
 		vv := v
 		vv.T = p.Type()
@@ -594,7 +602,11 @@ type frameTerm struct {
 func (ex *Exec) frameTerms(st *State, ms *ModSet, names []string) []frameTerm {
 	entry := ex.entry
 	var out []frameTerm
-	notFresh := func(x *Term) *Term { return Le(x, entry.Alloc) }
+	// an id existed on entry: object ids are positive; the derived address of an embedded
+	// array / buffer of object o is -(64*o + k), 0 < k < 64
+	notFresh := func(x *Term) *Term {
+		return Ite(Ge(x, Int(0)), Le(x, entry.Alloc), Le(Div(Neg(x), Int(64)), entry.Alloc))
+	}
 	for _, d := range names {
 		switch {
 		case d == "*":
